@@ -1,5 +1,6 @@
 import Got.Lemmas.MSQueueSolo
 import Got.Lemmas.MSQueueGlobal
+import Got.Lemmas.MSQueueAst
 /-
 C02 — loom.Queue is lock-free: an operation running alone always finishes.
 
@@ -126,3 +127,41 @@ theorem C02_step_dichotomy : ∀ (acts : List Act) (t n : Nat), t < n → busy (
     pushing and one popping for ever, round-robin: 166 ≥ F 2 = 162 `tau` steps), so the theorem applies. -/
 example : completed (run init []) + 1 ≤ completed (run (run init []) (rr 100 init)) :=
   C02_lock_free_window [] 2 (rr 100 init) rr_hyps.1 1 rr_hyps.2
+
+/-! ### the translated source (see Got/Props/C01.lean, section "the translated source")
+
+`Got.Model.MSQueueGen.genRun acts` is the state of the LTS generated from the current source of loom/queue.go after
+the client actions `acts`; `genSolo t k` = `k` successive steps of thread `t` alone in that LTS. -/
+
+/-- **C02 for the translated source.** From every reachable state of the LTS generated from the source, a thread that is
+    inside a Push or Pop and keeps running alone (everybody else frozen) is back to idle within `K = 13` of its own
+    steps. -/
+theorem C02_translated_source_solo_bound : ∀ (acts : List Act) (t : Nat),
+    Got.Model.AtomicIR.isIdle ((Got.Model.MSQueueGen.genRun acts).conf t) = false →
+    ∃ k, k ≤ 13 ∧ Got.Model.AtomicIR.isIdle
+      ((Got.Model.MSQueueGen.genSolo t k (Got.Model.MSQueueGen.genRun acts)).conf t) = true := by
+  intro acts t hb
+  rw [Got.Lemmas.MSQueueAst.genRun_eq] at hb ⊢
+  have hbusy : busy (run init acts) t := by
+    intro hi
+    simp [Got.Lemmas.MSQueueAst.concState, hi, Got.Lemmas.MSQueueAst.conf, Got.Model.AtomicIR.isIdle] at hb
+  obtain ⟨k, hk, hd⟩ := C02_solo_bound acts t hbusy
+  obtain ⟨aux', ha⟩ := Got.Lemmas.MSQueueAst.solo_sim t k (run init acts)
+    (Got.Lemmas.MSQueueAst.auxRun init (fun _ => 0) acts)
+  refine ⟨k, hk, ?_⟩
+  unfold Got.Model.MSQueueGen.genSolo
+  rw [ha]
+  have : (solo t k (run init acts)).pc t = .idle := by
+    unfold busy at hd
+    exact Classical.not_not.1 hd
+  simp [Got.Lemmas.MSQueueAst.concState, this, Got.Lemmas.MSQueueAst.conf, Got.Model.AtomicIR.isIdle]
+
+/-- non-vacuity, on the generated LTS itself: in the state reached by `lagPush` (a linked but unswung node) thread 1's
+    Push is busy, still busy after 8 solo steps and idle after 9; in `worstPop` the bound 13 is attained. -/
+example :
+    Got.Model.AtomicIR.isIdle ((Got.Model.MSQueueGen.genRun lagPush).conf 1) = false ∧
+    Got.Model.AtomicIR.isIdle ((Got.Model.MSQueueGen.genSolo 1 8 (Got.Model.MSQueueGen.genRun lagPush)).conf 1) = false ∧
+    Got.Model.AtomicIR.isIdle ((Got.Model.MSQueueGen.genSolo 1 9 (Got.Model.MSQueueGen.genRun lagPush)).conf 1) = true ∧
+    Got.Model.AtomicIR.isIdle ((Got.Model.MSQueueGen.genSolo 2 12 (Got.Model.MSQueueGen.genRun worstPop)).conf 2) = false ∧
+    Got.Model.AtomicIR.isIdle ((Got.Model.MSQueueGen.genSolo 2 13 (Got.Model.MSQueueGen.genRun worstPop)).conf 2) = true := by
+  decide
